@@ -174,19 +174,24 @@ fn c08_valid_targets_are_executed() {
         (vec![0x36, 0x60, 0x04, 0x60, 0x05, 0x01, 0x57, 0x00, 0x00, 0x5b, 0x60, 0x01, 0x50, 0x00], vec![7, 9, 10]),   // computed constant target 4 + 5
         (vec![0x36, 0x58, 0x60, 0x07, 0x01, 0x57, 0x00, 0x00, 0x5b, 0x00], vec![6, 8, 9]),                              // PC-relative target
         (vec![0x60, 0x04, 0x60, 0x05, 0x01, 0x56, 0x00, 0x00, 0x00, 0x5b, 0x60, 0x01, 0x50, 0x00], vec![10, 12]),        // computed target through JUMP
+        // targets computed by two and more ALU operations: 2 + 2 + 8 = 12 ; (96 >> 1) >> 1 = 24 -> here scaled to the code
+        (vec![0x60, 0x02, 0x60, 0x02, 0x01, 0x60, 0x08, 0x01, 0x56, 0x00, 0x00, 0x00, 0x5b, 0x60, 0x01, 0x50, 0x00], vec![13, 15]),
+        (vec![0x60, 0x38, 0x60, 0x01, 0x1c, 0x60, 0x01, 0x1c, 0x56, 0x00, 0x00, 0x00, 0x00, 0x00, 0x5b, 0x60, 0x01, 0x50, 0x00], vec![15, 17]),
+        (vec![0x36, 0x60, 0x01, 0x60, 0x03, 0x1b, 0x60, 0x06, 0x17, 0x60, 0x01, 0x01, 0x57, 0x00, 0x00, 0x5b, 0x60, 0x01, 0x50, 0x00], vec![13, 16, 18]),   // JUMPI to ((1 << 3) | 6) + 1 = 15
+        (vec![0x60, 0xff, 0x19, 0x19, 0x60, 0xf0, 0x16, 0x60, 0x04, 0x1c, 0x56, 0x00, 0x00, 0x00, 0x00, 0x5b, 0x60, 0x01, 0x50, 0x00], vec![16, 18]),          // ((~~0xff) & 0xf0) >> 4 = 15
     ];
     let n = progs.len();
     for (code, must) in progs {
         let Ok(is) = InstructionStream::try_from(code.as_slice()) else { continue };
         let Ok(mut vm) = VM::new(is, Config::default(), LazyWatchdog.in_rc()) else { continue };
         let r = vm.execute();
-        if let Err(e) = &r { witness("C08", "ctl.legal_transfer_followed", format!("{code:02x?}"), format!("execution errors {:?}", e.payloads().iter().map(|x| format!("{:?}", x.payload)).collect::<Vec<_>>()), "no error: every jump is legal".into()); }
+        if let Err(e) = &r { for pid in ["C08", "C07"] { witness(pid, "ctl.legal_transfer_followed", format!("{code:02x?}"), format!("execution errors {:?}", e.payloads().iter().map(|x| format!("{:?}", x.payload)).collect::<Vec<_>>()), "no error: every jump is legal".into()); } }
         let res = vm.consume();
         for off in must {
             // a JUMPDEST reached by JUMP is stepped over without being counted; everything else on the path is counted
             let seen = res.states.iter().any(|st| st.visited_instructions().visit_count(off).unwrap_or(0) > 0);
             if !seen && !(code[off as usize] == 0x5b && off as usize + 1 == code.len() && code.contains(&0x56)) {
-                witness("C08", "ctl.legal_transfer_followed", format!("{code:02x?}"), format!("offset {off} never executed"), "both outcomes of the jump explored".into());
+                for pid in ["C08", "C07"] { witness(pid, "ctl.legal_transfer_followed", format!("{code:02x?}"), format!("offset {off} never executed"), "both outcomes of the jump explored".into()); }
             }
         }
     }
